@@ -2,7 +2,7 @@
    dispatch_printed_messages.  "Lines do not interfere": if every line, printed and
    followed by a line feed, is read back whatever message follows it, the loop reads
    the body back line by line, each line with the bytes it took (text + line feed).
-   For scalar lines whose values are in C10's goodc fragment (int, char, T/F, strings
+   For scalar lines whose values are in C10's goodc0 fragment (int, char, T/F, strings
    and quoted symbols without '.') that is message_reads_tl (Save/PrintStage.v); lines
    outside the fragment - floats, plain option symbols, "[...]" array lines - enter as
    the named premise [line_reads]. *)
@@ -146,7 +146,7 @@ Definition line_reads (l : line) : Prop :=
 
 (* lines inside the fragment: a scalar line, address without white space, goodc values *)
 Definition goodc_line (l : line) : Prop :=
-  l_array l = false /\ good_addr (l_path l) /\ Forall goodc (map av_of (l_vals l)) /\
+  l_array l = false /\ good_addr (l_path l) /\ Forall goodc0 (map av_of (l_vals l)) /\
   Z.of_nat (length (l_vals l)) < 2 ^ 31.
 
 Theorem goodc_line_reads : forall l t w,
